@@ -228,6 +228,22 @@ def gen_keepalive(seed, opts=None):
         plan['script'].append({'at': rng.randint(1, max(2, horizon_ms // 2)) * MS,
                                'frame': {'t': 'KEEPALIVE', 'respond': rng.random() < 0.6, 'data': data.hex(),
                                          'position': rng.randint(0, 2 ** 62)}})
+    if role == 'client' and P <= 2000 and rng.random() < 0.4:
+        # a busy connection: application frames queued (and a transport whose send really waits) when the keep-alive
+        # timer fires -- the KEEPALIVE is still due every period, whatever is ahead of it in the send queue
+        d_ms = _pick(rng, [(2, max(1, P // 4)), (1, max(1, P // 10)), (1, P)])
+        plan['link']['c2s'].update(drain='delay', drain_delay=d_ms * MS)
+        ias = []
+        n_ticks = max(1, horizon_ms // P)
+        for b in range(rng.randint(1, 4)):
+            tick = rng.randint(1, min(n_ticks, 12))
+            start = max(0, tick * P - rng.choice([0, 1, d_ms, 2 * d_ms]))
+            for j in range(rng.randint(2, 6)):
+                ias.append({'id': len(ias), 'kind': 'fnf', 'by': 'client', 'at': start * MS, 'hops': rng.choice([0, 0, 1, 2]),
+                            'req': {'dlen': rng.randint(8, 40), 'mlen': None}})
+        ias.sort(key=lambda x: (x['at'], x['id']))
+        plan['interactions'] = ias
+        plan['busy'] = True
     plan['script'].sort(key=lambda s: s['at'])
     plan['horizon'] = horizon_ms * MS
     plan['end_close'] = True
